@@ -8,8 +8,8 @@ from mc import docspace, resolver as R
 from mc.ey import get_citations, resolve_citations, short_exc
 from mc.kernel import Stats, h64
 
-L_FULL = {"quick": 4, "thorough": 5}
-L_CORE = {"quick": 5, "thorough": 6}
+L_FULL = {"quick": 3, "thorough": 4}
+L_CORE = {"quick": 4, "thorough": 5}
 
 DOC_DEPTH = {"quick": 3, "thorough": 4}
 
@@ -37,11 +37,13 @@ AR = [
     "Foo v. Bar, 1 U.S. ___ (1990). ",
     "Qux, 1 U.S. at 7. ",
     "Kim v. Lee, 2 F.3d 20 (1995). ",
+    "Carpenter v. United States, 585 U.S. _ (2018). ",
+    "Trump v. Hawaii, 585 U.S. _ (2018). ",
 ]
 
 ASSUMPTIONS = [
     "default resolvers only; custom resolver callbacks are outside the property",
-    "abstract alphabet of 27 citation kinds (real objects extracted once from snippets, shallow-copied per position)",
+    "abstract alphabet of 28 citation kinds (real objects extracted once from snippets, shallow-copied per position)",
     "BFS canonical state = (set of full-citation classes seen, placeholder-page count capped at 2, class of last resolution); "
     "soundness of this abstraction is checked by comparing all one-step futures of two representative histories per state",
 ]
@@ -49,7 +51,7 @@ ASSUMPTIONS = [
 
 def rule(pid):
     return (
-        "seq: every sequence of length <= L over the 27-symbol alphabet (and <= L' over the 16 most interacting symbols) "
+        "seq: every sequence of length <= L over the 28-symbol alphabet (and <= L' over the 17 most interacting symbols) "
         "through the real resolve_citations; bfs: explicit-state search over canonical resolver states to fix-point, every "
         "transition executes the real resolver on representative+[event]; docs: lists extracted by get_citations from all "
         "concatenations of <= k ambiguous-document fragments (all prefixes for C08). distinct = distinct sequence/text; "
@@ -57,16 +59,29 @@ def rule(pid):
     )
 
 
+BFS_DROP_QUICK = ("fullU", "fullC3")  # structurally covered by fullP/fullQ and fullC in the sequence parts
+G = {}
+
+
+def bfs_names(tier):
+    return [n for n in R.NAMES if tier == "thorough" or n not in BFS_DROP_QUICK]
+
+
 def setup(tier, seed):
     R.build_alphabet()
+    if tier != "replay" and "bfs" not in G:
+        # state-graph discovery in the parent (one real resolver run per transition); the oracle and the
+        # canon-soundness differential are evaluated on every transition in parallel shards
+        G["bfs"] = R.bfs(bfs_names(tier), check_sound=False)
+        G["bfs_names"] = bfs_names(tier)
 
 
 def bounds(tier):
-    return {"alphabet": R.NAMES, "L_full": L_FULL[tier], "core_alphabet": R.CORE12, "L_core": L_CORE[tier], "bfs": "fix-point", "doc_fragments": len(AR), "doc_depth": DOC_DEPTH[tier]}
+    return {"alphabet": R.NAMES, "L_full": L_FULL[tier], "core_alphabet": R.CORE12, "L_core": L_CORE[tier], "bfs": "fix-point over " + str(len(bfs_names(tier))) + " symbols", "doc_fragments": len(AR), "doc_depth": DOC_DEPTH[tier]}
 
 
 def shards(tier, seed):
-    out = [{"part": "bfs"}]
+    out = [{"part": "bfs", "r": r, "n": 48} for r in range(48)]
     n = len(R.NAMES)
     out.append({"part": "seq", "alpha": "full", "prefix": [], "L": 1})  # lengths 0..1
     for a in range(n):
@@ -123,33 +138,45 @@ def run_shard(sh, pid):
     st = Stats()
     p = st.part(sh["part"])
     if sh["part"] == "bfs":
-        def on_tr(nh):
-            objs = R.instantiate(nh)
-            out, sig = check_objs(pid, objs)
-            st.evaluations += 1
-            st.traces += 1
-            p["evaluations"] += 1
-            if nontrivial_seq(objs):
-                st.nontrivial.add(h64(nh))
-            st.outcomes.add(h64(sig))
-            for lab, det in out:
-                st.violation({"part": "bfs", "seq": list(nh)}, f"{lab}: {det} :: sequence={nh}", label=f"bfs-{lab}")
-
-        r = R.bfs(R.NAMES, on_transition=on_tr)
-        st.transitions += r["transitions"]
-        for c in r["seen"]:
+        r = G["bfs"]
+        names = G["bfs_names"]
+        states = sorted(r["seen"].items(), key=lambda kv: (len(kv[1]), kv[1]))
+        unsound = []
+        for c, h in states[sh["r"] :: sh["n"]]:
             st.states.add(h64(repr(c)))
-        st.extra["bfs_canonical_states"] = r["states"]
-        st.extra["bfs_transitions"] = r["transitions"]
-        st.extra["bfs_longest_shortest_history"] = r["depth"]
-        st.extra["bfs_states_with_two_representatives"] = r["two_reps"]
-        st.extra["bfs_one_step_futures_compared"] = r["futures_compared"]
-        st.extra["bfs_canon_unsound"] = len(r["unsound"])
-        if r["capped"]:
-            st.caps_hit.append("bfs max_states")
-        if r["unsound"]:
-            st.extra["harness_errors"] = [f"canonical state abstraction unsound: {r['unsound'][:2]!r}"]
-        st.sample({"part": "bfs", "longest_history_example": max(r["seen"].values(), key=len)})
+            for ev in names:
+                nh = list(h) + [ev]
+                objs = R.instantiate(nh)
+                out, sig = check_objs(pid, objs)
+                st.evaluations += 1
+                st.traces += 1
+                st.transitions += 1
+                p["evaluations"] += 1
+                if nontrivial_seq(objs):
+                    st.nontrivial.add(h64(nh))
+                st.outcomes.add(h64(sig))
+                for lab, det in out:
+                    st.violation({"part": "bfs", "seq": list(nh)}, f"{lab}: {det} :: sequence={nh}", label=f"bfs-{lab}")
+            rs = r["reps"].get(c, [])
+            if len(rs) == 2:
+                for ev in names:
+                    a = R.step_outcome(rs[0], ev)
+                    b = R.step_outcome(rs[1], ev)
+                    st.extra["bfs_one_step_futures_compared"] = st.extra.get("bfs_one_step_futures_compared", 0) + 1
+                    if a != b:
+                        unsound.append((c, rs, ev, a, b))
+        if sh["r"] == 0:
+            st.extra["bfs_canonical_states"] = r["states"]
+            st.extra["bfs_transitions"] = r["transitions"]
+            st.extra["bfs_longest_shortest_history"] = r["depth"]
+            st.extra["bfs_states_with_two_representatives"] = r["two_reps"]
+            st.extra["bfs_alphabet"] = len(names)
+            if r["capped"]:
+                st.caps_hit.append("bfs max_states")
+            st.sample({"part": "bfs", "longest_history_example": max(r["seen"].values(), key=len)})
+        if unsound:
+            st.extra["bfs_canon_unsound"] = len(unsound)
+            st.extra["harness_errors"] = [f"canonical state abstraction unsound: {unsound[:2]!r}"]
         return st
     if sh["part"] in ("seq", "seq-core"):
         names = R.NAMES if sh["alpha"] == "full" else R.CORE12
